@@ -85,6 +85,8 @@ pub struct NetState {
     inj_counters: HashMap<u32, u32>,
     pub t0: Option<tokio::time::Instant>,
     pub undecodable_queries: u64,
+    /// "<filter class>/<section>/<response kind>" -> address records delivered (honest or injected)
+    pub af_seen: HashMap<String, u64>,
 }
 
 #[derive(Clone)]
@@ -251,7 +253,7 @@ fn glue_for(recs: &[Rec], ns_set: &[Rec]) -> Vec<Rec> {
     v
 }
 
-fn genuine(world: &World, s: &Server, qname: &str, qtype: &str) -> Option<Resp> {
+pub fn genuine(world: &World, s: &Server, qname: &str, qtype: &str) -> Option<Resp> {
     if s.silent {
         return None;
     }
@@ -389,8 +391,34 @@ pub fn respond(net: &Net, ip: IpAddr, qname: &str, qtype: &str) -> Option<Resp> 
                 _ => r.add.push(rec.clone()),
             }
         }
+        if inj.mode == "move" && inj.section != 0 {
+            // answer-less positive response: the records asked for leave the answer section
+            let moved: Vec<Rec> = r.ans.drain(..).collect();
+            if !moved.is_empty() {
+                r.kind = "answerless";
+                *st.resp_kinds.entry("answerless".to_string()).or_insert(0) += 1;
+            }
+            match inj.section {
+                1 => r.auth.extend(moved),
+                _ => r.add.extend(moved),
+            }
+        }
         let top = st.top;
         st.delivered.push(Delivered { m: inj.m, top });
+    }
+    // what the filters are confronted with: every address record of the final response, by
+    // filter class x section x response kind (only in worlds that configure an answer filter)
+    if !net.world.opts.deny_answers.is_empty() {
+        for (sec, recs) in [("answer", &r.ans), ("authority", &r.auth), ("additional", &r.add)] {
+            for rec in recs.iter().filter(|x| x.rtype == "A" || x.rtype == "AAAA") {
+                if let Ok(a) = rec.data.parse::<IpAddr>() {
+                    let c = crate::oracle::addr_class(&a, &net.world.opts);
+                    if c != "plain" {
+                        *st.af_seen.entry(format!("{c}/{sec}/{}", r.kind)).or_insert(0) += 1;
+                    }
+                }
+            }
+        }
     }
     let _ = parent_of;
     Some(r)
